@@ -79,6 +79,55 @@ Proof.
     f_equal. { rewrite app_length. lia. } { cbn [rev]. now rewrite <- app_assoc. }
 Qed.
 
+(* the keys and values of a map literal end up on the stack pairwise, the last value on top *)
+Definition pairs_flat (kvs : list (value * value)) : list value := flat_map (fun p => [fst p; snd p]) kvs.
+
+Lemma pairs_flat_length kvs : length (pairs_flat kvs) = 2 * length kvs.
+Proof. induction kvs as [|p r IH]; cbn [pairs_flat flat_map app length]; [reflexivity|]. fold (pairs_flat r). rewrite IH. lia. Qed.
+
+Lemma pairs_of_vals_flat kvs : pairs_of_vals (pairs_flat kvs) = Some kvs.
+Proof.
+  induction kvs as [|[k v] r IH]; cbn [pairs_flat flat_map app pairs_of_vals fst snd]; [reflexivity|].
+  fold (pairs_flat r). rewrite IH. reflexivity.
+Qed.
+
+Lemma map_eval_pairs_length (ev : st -> expr -> outcome (value * st)) pairs : forall s kvs s',
+  map_eval_pairs ev s pairs = Ok (kvs, s') -> length kvs = length pairs.
+Proof.
+  induction pairs as [|[k x] r IH]; intros s kvs s' H; cbn [map_eval_pairs] in H.
+  - inversion H. reflexivity.
+  - fold (map_eval_pairs ev) in H. destruct (ev s k) as [[kv s1]| | |]; try discriminate. cbn [bind] in H.
+    destruct (ev s1 x) as [[xv s2]| | |]; try discriminate. cbn [bind] in H.
+    destruct (map_eval_pairs ev s2 r) as [[vr s3]| | |] eqn:E; try discriminate. cbn [bind] in H.
+    inversion H; subst. cbn [length]. f_equal. eapply IH; eauto.
+Qed.
+
+Lemma pairs_sim fuel esc pairs : eval_inv c C fuel ->
+  (forall e, l2_expr e = true -> sim_expr fuel esc e) ->
+  forallb (fun p => l2_expr (fst p) && l2_expr (snd p)) pairs = true ->
+  forall s kvs s', map_eval_pairs (eval c fuel esc) s pairs = Ok (kvs, s') -> Inv s ->
+  forall base stk escs caps its calls, code_at C base (pairs_code compile_expr pairs base) ->
+  star (mkVm base stk s esc escs caps its calls)
+       (mkVm (base + length (pairs_code compile_expr pairs base)) (rev (pairs_flat kvs) ++ stk) s' esc escs caps its calls).
+Proof.
+  intros EV IH. induction pairs as [|[k x] r IHr]; intros Hw s kvs s' He Hi base stk escs caps its calls Hc.
+  - cbn in He. inversion He; subst. cbn. rewrite Nat.add_0_r. constructor.
+  - cbn [forallb fst snd] in Hw. apply andb_prop in Hw as [Hkx Hr]. apply andb_prop in Hkx as [Hk Hx].
+    cbn [map_eval_pairs] in He. fold (map_eval_pairs (eval c fuel esc)) in He.
+    destruct (eval c fuel esc s k) as [[kv s1]| | |] eqn:Ek; try discriminate. cbn [bind] in He.
+    destruct (eval c fuel esc s1 x) as [[xv s2]| | |] eqn:Ex; try discriminate. cbn [bind] in He.
+    destruct (map_eval_pairs (eval c fuel esc) s2 r) as [[vr s3]| | |] eqn:Er; try discriminate. cbn [bind] in He.
+    inversion He; subst. cbn [pairs_code] in Hc |- *. fold (pairs_code compile_expr) in Hc |- *.
+    destruct (EV esc k Hk _ _ _ Hi Ek) as [_ I1]. destruct (EV esc x Hx _ _ _ I1 Ex) as [_ I2].
+    eapply star_trans. { eapply (IH k Hk _ _ _ Ek Hi). eapply code_at_app_l; eauto. }
+    apply code_at_app_r in Hc.
+    eapply star_trans. { eapply (IH x Hx _ _ _ Ex I1). eapply code_at_app_l; eauto. }
+    apply code_at_app_r in Hc.
+    eapply star_eq. { eapply (IHr Hr _ _ _ Er I2). exact Hc. }
+    f_equal. { rewrite !app_length. lia. }
+    { cbn [pairs_flat flat_map fst snd app rev]. fold (pairs_flat vr). rewrite <- !app_assoc. reflexivity. }
+Qed.
+
 Lemma u_is_true_bool md b : u_is_true md (VBool b) = Ok b.
 Proof. destruct md; reflexivity. Qed.
 
@@ -191,8 +240,8 @@ Ltac finish := eapply star_eq; [constructor|]; f_equal; rewrite ?app_length; cbn
 (* ---- keyword arguments ---- *)
 Lemma vok_not_kwargs v : vok v -> as_kwargs v = None.
 Proof.
-  destruct v as [| | | | | |l| | |]; try reflexivity. destruct l as [|x l]; [reflexivity|].
-  destruct x as [| | | | | | | | |g]; try reflexivity. intros H. apply vok_list in H. inversion H as [|? ? Hg _]; subst.
+  destruct v as [| | | | | |l| | | |]; try reflexivity. destruct l as [|x l]; [reflexivity|].
+  destruct x as [| | | | | | | | | |g]; try reflexivity. intros H. apply vok_list in H. inversion H as [|? ? Hg _]; subst.
   cbn in Hg. subst g. reflexivity.
 Qed.
 
@@ -339,6 +388,12 @@ Proof.
     eapply star_trans. { eapply (seq_sim fuel esc items EV (IH esc) Hw _ _ _ Em ltac:(sat; assumption)). eapply code_at_app_l; eauto. }
     apply code_at_app_r in Hc.
     step_by Hc ltac:(rewrite <- (map_eval_length _ _ _ _ _ Em), (pop_n_rev vs stk []), app_nil_r). finish.
+  - (* EMap *)
+    destruct (map_eval_pairs (eval c fuel esc) s pairs) as [[kvs s1]| | |] eqn:Em; try discriminate.
+    cbn [bind] in He. inversion He; subst.
+    eapply star_trans. { eapply (pairs_sim fuel esc pairs EV (IH esc) Hw _ _ _ Em ltac:(sat; assumption)). eapply code_at_app_l; eauto. }
+    apply code_at_app_r in Hc.
+    step_by Hc ltac:(rewrite <- (map_eval_pairs_length _ _ _ _ _ Em), <- (pairs_flat_length kvs), (pop_n_rev (pairs_flat kvs) stk []), app_nil_r, pairs_of_vals_flat). finish.
   - (* ENeg *)
     destruct (eval c fuel esc s e) as [[x s1]| | |] eqn:Ea; try discriminate. cbn [bind] in He.
     eapply star_trans. { eapply (IH esc e Hw _ _ _ Ea ltac:(sat; assumption)). eapply code_at_app_l; eauto. }
@@ -449,7 +504,7 @@ Proof.
     eapply star_trans. { eapply (IH esc e2 Hw2 _ _ _ Eb ltac:(sat; assumption)). eapply code_at_app_l; eauto. }
     apply code_at_app_r in Hc.
     assert (Hg : get_item (c_mode c) x k = Ok v /\ s' = s2).
-    { unfold get_item. destruct (match x, k with VList l, VInt z => idx_list l z | _, _ => None end) as [w|].
+    { unfold get_item. destruct (get_item_opt x k) as [w|].
       - inversion He; auto.
       - destruct (u_handle_undefined (c_mode c) (is_undef x)) as [w| | |]; try discriminate. inversion He; auto. }
     destruct Hg as [Hg ->].
@@ -459,7 +514,7 @@ Proof.
     eapply star_trans. { eapply (IH esc e Hw _ _ _ Ea ltac:(sat; assumption)). eapply code_at_app_l; eauto. }
     apply code_at_app_r in Hc.
     assert (Hg : get_attr (c_mode c) x a = Ok v /\ s' = s1).
-    { unfold get_attr. destruct (match x with VLoop i n => loop_attr i n a | _ => None end) as [w|].
+    { unfold get_attr. destruct (get_attr_opt x a) as [w|].
       - inversion He; auto.
       - destruct (u_handle_undefined (c_mode c) (is_undef x)) as [w| | |]; try discriminate. inversion He; auto. }
     destruct Hg as [Hg ->].
@@ -557,14 +612,14 @@ Proof.
     destruct Hk as (pcall & argc & args0 & Hn & Hpop & Hsp & Hend & S12).
     rewrite <- Hend.
     eapply star_trans; [exact S12|].
-    destruct fv as [[| | | | | | |mc cl| |g]|]; try discriminate.
+    destruct fv as [[| | | | | | | |mc cl| |g]|]; try discriminate.
     + (* a macro *)
       destruct (IHcall esc s3 mc cl vs kvs v s' He I3 Vf V1 V2 pcall (rev args0 ++ stk) s2 stk escs caps its calls) as [σ1 [Hvm S3]].
       eapply star_step; [|exact S3].
       rewrite (step_at _ _ _ _ _ _ _ _ _ Hn). cbn [exec_instr v_stk v_st]. rewrite Hpop, Hsp, El. exact Hvm.
     + (* range *)
       destruct (g =? N_range)%Z eqn:Eg; [|discriminate].
-      destruct vs as [|[| | | |k| | | | |] [|? ?]]; try discriminate. destruct kvs; [|discriminate].
+      destruct vs as [|[| | | |k| | | | | |] [|? ?]]; try discriminate. destruct kvs; [|discriminate].
       inversion He; subst.
       apply star_one. rewrite (step_at _ _ _ _ _ _ _ _ _ Hn). cbn [exec_instr v_stk v_st]. rewrite Hpop, Hsp, El, Eg. reflexivity.
 Qed.
